@@ -1,1 +1,1 @@
-AREAS = ["amount"]
+AREAS = ["amount", "replfetcher", "codec", "quote", "service"]
